@@ -38,9 +38,9 @@ def execOver : Phase → Bool
   | .execDoneP | .released | .done => true
   | _ => false
 
-theorem execResultOf_some (c : Config) (k : Nat) (r : Res) :
+theorem execResultOf_some (c : Config) (k : Nat) (r : Outcome) :
     execResultOf c (some k) = some r ↔
-      ∃ e ex, c.execs.lookup k = some e ∧ c.act? e = some ex ∧ execOver ex.phase = true ∧ ex.res = r := by
+      ∃ e ex, c.execs.lookup k = some e ∧ c.act? e = some ex ∧ execOver ex.phase = true ∧ ex.out = r := by
   unfold execResultOf
   constructor
   · intro h
@@ -64,7 +64,7 @@ theorem execResultOf_some (c : Config) (k : Nat) (r : Res) :
 
 /-- the outcome of a finished shared execution is stable -/
 theorem execResultOf_step (P : Program) (F : Flags) (c c' : Config) (l : Label) (h : step P F c l = some c')
-    (k : Nat) (r : Res) (hk : execResultOf c (some k) = some r) : execResultOf c' (some k) = some r := by
+    (k : Nat) (r : Outcome) (hk : execResultOf c (some k) = some r) : execResultOf c' (some k) = some r := by
   obtain ⟨e, ex, h1, h2, h3, h4⟩ := (execResultOf_some c k r).mp hk
   rw [execResultOf_some]
   have hlk : c'.execs.lookup k = some e := by
@@ -86,7 +86,7 @@ theorem execResultOf_step (P : Program) (F : Flags) (c c' : Config) (l : Label) 
         have hL := LStep_of_stepLocal F _ ex _ y eff hl
         cases hL <;> simp_all [execOver]
       · have hlate : lateP ex.phase = true := by revert h3; cases ex.phase <;> simp [execOver, lateP]
-        rw [(lateP_step F _ ex _ y eff hl hlate).2.1]; exact h4
+        rw [lateP_step_out F _ ex _ y eff hl hlate]; exact h4
     · exact ⟨e, ex, hlk, by rw [act?_set_other _ _ _ _ he, act?_applyEff]; exact h2, h3, h4⟩
 
 /-- the life of a waiter after the `waiter` event -/
@@ -96,7 +96,7 @@ def wlife : Phase → Bool
 
 def WInv (c : Config) (x : Act) : Prop :=
   ∀ k, x.waitsFor = some k → wlife x.phase = true ∧
-    (x.phase ≠ .wWaiting → x.phase ≠ .wReleased → execResultOf c (some k) = some x.res)
+    (x.phase ≠ .wWaiting → x.phase ≠ .wReleased → execResultOf c (some k) = some x.out)
 
 theorem waitsFor_step (F : Flags) (o : Obs) (x : Act) (ev : Ev) (y : Act) (eff : Eff)
     (h : stepLocal F o x ev = some (y, eff)) (hne : ∀ k, ev ≠ .waiter k) : y.waitsFor = x.waitsFor := by
@@ -154,7 +154,7 @@ theorem WInv_sound (P : Program) (F : Flags) (n : Nat) (tr : List Label) (c : Co
   · intro c l c' hI hs b z hz
     have hst := execResultOf_step P F c c' _ hs
     have hkeep : ∀ w : Act, WInv c w → ∀ w' : Act, w'.waitsFor = w.waitsFor → w'.phase = w.phase →
-        w'.res = w.res → WInv c' w' := by
+        w'.out = w.out → WInv c' w' := by
       intro w hw w' e1 e2 e3 k hk
       obtain ⟨g1, g2⟩ := hw k (by rw [← e1]; exact hk)
       refine ⟨by rw [e2]; exact g1, fun n1 n2 => ?_⟩
